@@ -1,6 +1,7 @@
-(* OCaml side of the C19 correspondence.  Glue only: parses the identity-based state written by
-   harness/c19_driver.cpp (field S0), runs the extracted model, prints the states in the same format.
-   argv.(1) = file with one state per line. *)
+(* OCaml side of the C19 correspondence.  Glue only: parses the identity-based states written by
+   harness/c19_driver.cpp, runs the extracted model, prints in the same format.
+   argv.(1) = file with one case per line:  <state before the pre-history> TAB <pre-history commands, ';' separated> TAB <state after>
+   (a line without TABs is a single state with an empty pre-history). *)
 open Iface_model
 
 let explode s = List.init (String.length s) (String.get s)
@@ -19,9 +20,10 @@ let next () = let t = !toks.(!pos) in incr pos; t
 let expect w = let t = next () in if t <> w then failwith ("expected " ^ w ^ " got " ^ t)
 let rd_int () = int_of_string (next ())
 let rd_nat () = nat_of_int (rd_int ())
-let rd_str () = let t = next () in
+let str_of_tok t =
   if String.length t = 0 || t.[0] <> 's' then failwith ("bad string token " ^ t);
   explode (hexdecode (String.sub t 1 (String.length t - 1)))
+let rd_str () = str_of_tok (next ())
 let rd_opt () = let t = next () in if t = "-" then None else Some (nat_of_int (int_of_string t))
 let rd_bool () = (next ()) = "1"
 let rec rd_list n f = if n = 0 then [] else let x = f () in x :: rd_list (n - 1) f
@@ -44,15 +46,22 @@ let rec rd_comp () =
 let rd_ext () =
   let t = rd_nat () in let c = rd_opt () in let p = rd_opt () in
   { x_tag = t; x_comp = (match c with None -> None | Some c -> Some (c, p)) }
-let rd_model () =
+(* -> (model, other models' lists, equality classes) *)
+let rd_state text =
+  toks := Array.of_list (List.filter (fun t -> t <> "") (String.split_on_char ' ' text));
+  pos := 0;
   expect "M"; let mt = rd_nat () in
   expect "H"; let n = rd_int () in let heap = rd_list n rd_uobj in
   expect "L"; let n = rd_int () in let us = rd_list n rd_nat in
   expect "C"; let n = rd_int () in let cs = rd_list n rd_comp in
   expect "X"; let n = rd_int () in let xs = rd_list n rd_ext in
-  { m_tag = mt; m_heap = heap; m_units = us; m_comps = cs; m_ext = xs }
+  expect "O"; let n = rd_int () in
+  let others = rd_list n (fun () -> let t = rd_nat () in let k = rd_int () in let l = rd_list k rd_nat in (t, l)) in
+  expect "Q"; let n = rd_int () in
+  let cls = rd_list n (fun () -> let t = rd_nat () in let c = rd_nat () in (t, c)) in
+  ({ m_tag = mt; m_heap = heap; m_units = us; m_comps = cs; m_ext = xs }, others, cls)
 
-(* ---- printer (same format) *)
+(* ---- printer (same format, up to and including X) *)
 let pn n = string_of_int (int_of_nat n)
 let ps s = "s" ^ hexencode (implode s)
 let po = function None -> "-" | Some n -> pn n
@@ -92,22 +101,70 @@ let pr_issues l =
         | IssNoParent (v, e) -> "N" ^ pn v ^ "." ^ pn e) l)
 let bs b = if b then "true" else "false"
 
+(* ---- the pre-history: script commands -> uop (None: a command that does not touch ownership) *)
+let parse_op (st : ustate) (cmd : string) : uop option =
+  let t = List.filter (fun x -> x <> "") (String.split_on_char ' ' cmd) in
+  let n x = nat_of_int (int_of_string x) in
+  match t with
+  | ["addunits"; m; u] -> Some (OAdd (n m, n u))
+  | ["removeunits_i"; m; i] -> Some (ORemoveIdx (n m, n i))
+  | ["removeunits_n"; m; s] -> Some (ORemoveName (n m, str_of_tok s))
+  | ["removeunits_p"; m; u] -> Some (ORemovePtr (n m, n u))
+  | ["removeallunits"; m] -> Some (ORemoveAll (n m))
+  | ["takeunits_i"; m; i] -> Some (OTakeIdx (n m, n i))
+  | ["takeunits_n"; m; s] -> Some (OTakeName (n m, str_of_tok s))
+  | ["replaceunits_i"; m; i; u] -> Some (OReplaceIdx (n m, n i, n u))
+  | ["replaceunits_n"; m; s; u] -> Some (OReplaceName (n m, str_of_tok s, n u))
+  | ["replaceunits_p"; m; o; u] -> Some (OReplacePtr (n m, n o, n u))
+  | ["release"; m] -> (match lists_get st.us_models (n m) with Some _ -> Some (ODestroy (n m)) | None -> None)
+  | ["setunits_p"; _; _] -> None
+  | _ -> failwith ("pre-history command not modelled: " ^ cmd)
+
+let pr_res = function
+  | RBool b -> bs b
+  | RPtr None -> "null"
+  | RPtr (Some u) -> pn u
+  | RVoid -> "-"
+  | RInvalid -> "INVALID"
+
+let pr_own (st : ustate) =
+  let b = Buffer.create 256 in
+  List.iter (fun u -> Buffer.add_string b (Printf.sprintf " %s=%s" (pn u.u_tag) (po u.u_owner))) (visible_heap st);
+  Buffer.add_string b " |";
+  List.iter (fun (m, l) -> Buffer.add_string b (Printf.sprintf " %s=[%s]" (pn m) (String.concat "," (List.map pn l)))) st.us_models;
+  Buffer.contents b
+
+let run_history text0 ops =
+  let (m0, others, cls) = rd_state text0 in
+  let st0 = { us_heap = m0.m_heap; us_models = (m0.m_tag, m0.m_units) :: others; us_class = cls } in
+  let cmds = List.filter (fun c -> String.trim c <> "") (String.split_on_char ';' ops) in
+  let (st, res, readd) =
+    List.fold_left (fun (st, res, readd) cmd ->
+        match parse_op st cmd with
+        | None -> (st, "-" :: res, readd)
+        | Some o -> let rd = readds st o in let (st', r) = step st o in (st', pr_res r :: res, readd || rd))
+      (st0, [], false) cmds in
+  Printf.sprintf "OWN %s |%s\tREADD %s" (if res = [] then "-" else String.concat "," (List.rev res)) (pr_own st) (pb readd)
+
 let () =
   let ic = open_in Sys.argv.(1) in
   (try
      while true do
        let line = input_line ic in
        (try
-          toks := Array.of_list (List.filter (fun t -> t <> "") (String.split_on_char ' ' line));
-          pos := 0;
-          let m = rd_model () in
+          let (p0, ops, s0) = match String.split_on_char '\t' line with
+            | [a; b; c] -> (a, b, c)
+            | [a] -> (a, "", a)
+            | _ -> failwith "bad case line" in
+          let hist = run_history p0 ops in
+          let (m, _, _) = rd_state s0 in
           let one fixed =
             let (mf, ok) = fix_model fixed m in
             Printf.sprintf "FIX %s %s\tVAL %s" (bs ok) (pr_model mf) (pr_issues (validate_connections fixed mf)) in
           let (ml, lok) = link_model m in
-          Printf.printf "%s\tLINK %s %s %s %s\tCLEAN %s\tHB %s\tUNFIXED %s\n"
+          Printf.printf "%s\tLINK %s %s %s %s\tCLEAN %s\tHB %s\t%s\tUNFIXED %s\n"
             (one true) (bs lok) (bs (has_unlinked m)) (bs (has_unlinked ml)) (pr_model ml)
-            (pr_model (clean_model m)) (pb (model_hidden_bad m)) (one false)
+            (pr_model (clean_model m)) (pb (model_hidden_bad m)) hist (one false)
         with e -> Printf.printf "MODEL-ERROR %s\n" (Printexc.to_string e))
      done
    with End_of_file -> ());
